@@ -427,6 +427,8 @@ class Engine:
         if not targets:
             raise ExpectedRefusal("no target")
         t = self.rng.choice(targets)
+        if t != n.parent and any(self.model.nodes[c].name == n.name for c in self.model.children(t)):
+            raise ExpectedRefusal("a sibling with this name already lives there (the driver keeps sibling names distinct)")
         op.update(cls=n.cls, target=n.uid, to=t, frm=n.parent)
         fp = self.last_footprint
         fp["links"].update({"Groups/" + br(t), "Groups/" + br(n.parent)})
@@ -548,8 +550,9 @@ class Engine:
         fp["links"].add(path_of(self.model.nodes[t]) if t != self.model.root else "Groups/" + br(t))
         src = self.ent(n.uid)
         extra = {}
-        if n.kind == "data":
-            # a second child with the same name under one parent would make name look-ups ambiguous
+        if n.kind == "data" or any(self.model.nodes[c].name == n.name for c in self.model.children(t)):
+            # a second child with the same name under one parent would make name look-ups (and the matching of the
+            # children of a later copy of that parent) ambiguous
             extra["name"] = self.new_name("c")
             op["name"] = extra["name"]
         new = src.copy(parent=self.ent(t), copy_children=with_children, **extra)
@@ -560,7 +563,7 @@ class Engine:
         op["uid"] = str(new.uid)
         self.rec.check(f"{self.prop}.copy-fresh-uid", str(new.uid) != n.uid and str(new.uid) not in self.model.nodes, op="copy", cls=n.cls, attr="uid", detail="same-workspace copy reused an identifier in use")
         self._learn_copy(n.uid, new, t, with_children)
-        if n.kind == "data":
+        if "name" in extra:
             self.model.nodes[str(new.uid)].name = extra["name"]
 
     def op_copy_out(self, op):
